@@ -55,8 +55,18 @@ pub fn config(buffer_size: usize, max_conns: usize) -> Config {
     c.buffer_size = buffer_size;
     c
 }
+/// a growable writer that accepts at most `k` bytes per `write` call (`write_all` has to loop)
+pub struct DripW { pub out: Vec<u8>, pub k: usize }
+impl std::io::Write for DripW {
+    fn write(&mut self, buf: &[u8]) -> std::io::Result<usize> { let n = self.k.min(buf.len()); self.out.extend(&buf[..n]); Ok(n) }
+    fn flush(&mut self) -> std::io::Result<()> { Ok(()) }
+}
 fn sink_run(cap: &str, f: impl Fn(&mut dyn std::io::Write) -> std::io::Result<usize>) -> Option<String> {
-    let (res, out) = if cap == "vec" {
+    let (res, out) = if let Some(k) = cap.strip_prefix("drip") {
+        let mut w = DripW { out: vec![], k: k.parse::<usize>().ok()?.max(1) };
+        let r = f(&mut w);
+        (r, w.out)
+    } else if cap == "vec" {
         let mut o: Vec<u8> = Vec::new();
         let r = f(&mut o);
         (r, o)
@@ -301,6 +311,14 @@ impl Impl {
                     Err(_) => "not-a-varint".into(),
                 }
             }
+            ["vi.encw", n, k] => {
+                let v: u32 = n.parse().ok()?;
+                match VarInt::try_from(v) {
+                    Ok(vi) => { let mut w = DripW { out: vec![], k: k.parse::<usize>().ok()?.max(1) };
+                        match vi.write(&mut w) { Ok(c) if c == w.out.len() => hex(&w.out), Ok(c) => format!("count-mismatch {c} {}", hex(&w.out)), Err(e) => format!("err {:?}", e.kind()) } }
+                    Err(_) => "not-a-varint".into(),
+                }
+            }
             ["vi.u32", n] => {
                 let x: u64 = n.parse().ok()?;
                 match VarInt::try_from(x as u32) { Ok(v) => format!("ok {}", u32::from(v)), Err(_) => "err".into() }
@@ -349,7 +367,11 @@ impl Impl {
             }
             ["nv.write", cap, n, v] => {
                 let nb = unhex(n); let vb = unhex(v);
-                let (res, out): (std::io::Result<usize>, Vec<u8>) = if *cap == "vec" {
+                let (res, out): (std::io::Result<usize>, Vec<u8>) = if let Some(k) = cap.strip_prefix("drip") {
+                    let mut w = DripW { out: vec![], k: k.parse::<usize>().ok()?.max(1) };
+                    let r = fcgi::nv::write((&nb, &vb), &mut w);
+                    (r, w.out)
+                } else if *cap == "vec" {
                     let mut o = Vec::new();
                     let r = fcgi::nv::write((&nb, &vb), &mut o);
                     (r, o)
